@@ -51,6 +51,8 @@ type c16 struct {
 	cnt   map[string]*atomic.Int64
 	turnR int           // rotates the kinds of the "retiring" scenario
 	turnM int           // rotates the kinds of the "multi" scenario
+	turnC int           // rotates the task-size profiles of the chunk stress histories
+	turnZ int           // alternates the task-size profiles of the chunk "retiring" histories
 	grace time.Duration // how long a call may stay unreturned (environment kept going) before it is recorded as hung
 	hung  atomic.Bool   // a hang was recorded: recording stops (the stuck goroutines cannot be joined)
 	path  string
@@ -73,7 +75,7 @@ func (c *c16) count(name string) {
 var c16Counters = []string{"hist_per", "hist_bulk", "hist_chunk", "hist_handover", "adds", "waits", "flushes", "ticks", "jumps",
 	"flusher_starts", "flusher_stops", "takes_nonempty", "execs", "hist_quitrace", "hangs",
 	"hist_retiring", "retiring_hit", "retiring_stop_hit", "retiring_final_hit", "rests", "hist_multi", "multi_execs", "multi_defaulted", "multi_concurrent",
-	"default_full_batches", "tickers_timed"}
+	"default_full_batches", "tickers_timed", "hist_chunk_zero", "zero_batches", "zero_adds", "retiring_zero", "edge_adds"}
 
 func c16infra(format string, a ...any) {
 	// harness trouble is never a verdict: dump and leave with a code the check maps to exit 2
@@ -142,6 +144,7 @@ type c16hist struct {
 	onExec  atomic.Pointer[func([]int)] // directed scenarios: run inside the execute callback (between xb and xe)
 	bmu     sync.Mutex
 	buf     []kit.M
+	szs     sync.Map // task id -> byte size handed to Add (bookkeeping for the counters only)
 }
 
 // ev records one event of this history.  Buffered histories take their sequence order under
@@ -176,6 +179,7 @@ func (h *c16hist) call(p int, op string, t, size int, fn func()) {
 	h.mu.Unlock()
 	switch op {
 	case "add":
+		h.szs.Store(t, size)
 		h.ev(kit.M{"e": "ainv", "p": p, "t": t, "s": size})
 	case "wait":
 		h.ev(kit.M{"e": "winv", "p": p})
@@ -800,6 +804,17 @@ func (c *c16) build(h *c16hist, cf c16cfg, sc string) c16pub {
 		if !cf.expMax && len(b) == cf.max {
 			c.count("default_full_batches")
 		}
+		if cf.kind == "chunk" && len(b) > 0 {
+			zero := true
+			for _, t := range b {
+				if s, ok := h.szs.Load(t); !ok || s.(int) != 0 {
+					zero = false
+				}
+			}
+			if zero {
+				c.count("zero_batches") // a batch whose tasks carry no bytes at all: only tick / Flush / Wait / final flush can have sent it
+			}
+		}
 		if f := h.onExec.Load(); f != nil {
 			(*f)(b)
 		} else {
@@ -839,7 +854,14 @@ func (c *c16) build(h *c16hist, cf c16cfg, sc string) c16pub {
 		}
 		ce := NewChunkExecutor(execute, opts...)
 		h.pe = ce.executor
-		api = c16pub{add: func(p, t, s int) { _ = ce.Add(t, s) }, flush: ce.Flush, wait: ce.Wait}
+		api = c16pub{add: func(p, t, s int) {
+			if s == 0 {
+				c.count("zero_adds")
+			} else if s >= cf.max-1 && s <= cf.max+1 {
+				c.count("edge_adds")
+			}
+			_ = ce.Add(t, s)
+		}, flush: ce.Flush, wait: ce.Wait}
 	default:
 		rc := &c16container{c: c, h: h, thr: cf.max, r: er}
 		h.pe = NewPeriodicalExecutor(cf.iv, rc)
@@ -850,6 +872,31 @@ func (c *c16) build(h *c16hist, cf c16cfg, sc string) c16pub {
 		h.pe.newTicker = h.newTicker
 	}
 	return api
+}
+
+// c16chunkSizes: the byte size of a chunk task is a dimension of its own.  The statement's triggers
+// other than the byte threshold (tick, Flush, Wait, the retiring flusher's final flush) concern
+// whatever tasks are held, however few bytes they carry - a size of 0 (an empty payload added
+// with size = len(payload)) included.  Profiles:
+//
+//	0  positive sizes around and beyond the limits in use
+//	1  size 0 only: no batch ever reaches the byte threshold, every batch has 0 bytes
+//	2  size 0 mixed with sizes one below / exactly at / one above the byte limit
+//	3  profile 0 plus size 0
+func c16chunkSizes(prof, max int) []int {
+	switch prof {
+	case 1:
+		return []int{0}
+	case 2:
+		s := []int{0, 0, max, max + 1}
+		if max > 1 {
+			s = append(s, max-1)
+		}
+		return s
+	case 3:
+		return []int{0, 0, 1, 2, 5, 8, 10, 13}
+	}
+	return []int{1, 2, 5, 8, 10, 13}
 }
 
 // stress: g callers doing nops random calls each, the environment goroutine ticking / jumping.
@@ -878,7 +925,12 @@ func (c *c16) public(kind string) {
 		max = []int{1, 2, 7}[c.rng.Intn(3)]
 	} else {
 		max = []int{1, 8, 10}[c.rng.Intn(3)]
-		sizes = []int{1, 2, 5, 8, 10, 13}
+		c.turnC++
+		prof := (c.turnC + kit.EnvInt("VERIF_SHARD", 0)) % 4
+		sizes = c16chunkSizes(prof, max)
+		if prof == 1 {
+			c.count("hist_chunk_zero")
+		}
 	}
 	h := c.newHist()
 	h.hand = c.rng.Intn(2) == 0
@@ -940,7 +992,11 @@ func (c *c16) retiring(kind string, plan [3]int) {
 		cf = c16config(kind, []int{5, 7, 0}[c.rng.Intn(3)], c16Interval)
 	case "chunk":
 		cf = c16config(kind, []int{13, 16, 0}[c.rng.Intn(3)], c16Interval)
-		sizes = []int{1, 2, 3}
+		sizes = []int{0, 1, 2, 3}
+		if c.turnZ++; c.turnZ%2 == 1 { // every Add placed on the flusher's way out carries 0 bytes
+			sizes = []int{0}
+			c.count("retiring_zero")
+		}
 	default:
 		cf = c16config("per", []int{0, 5, 6, 1}[c.rng.Intn(4)], c16Interval)
 	}
@@ -1137,9 +1193,9 @@ func (c *c16) multi(kind string) {
 				}
 			})
 		case kind == "chunk":
-			sizes := []int{1, 2, 5, 8, 10, 13}
+			sizes := []int{0, 1, 2, 5, 8, 10, 13}
 			if cf.max > 1000 {
-				sizes = []int{cf.max / 4, cf.max / 3, cf.max/2 + 1, cf.max - 1, cf.max, cf.max + 5, 1}
+				sizes = []int{cf.max / 4, cf.max / 3, cf.max/2 + 1, cf.max - 1, cf.max, cf.max + 1, cf.max + 5, 1, 0}
 			}
 			ok = h.stress(api, 2+h.rng.Intn(2), 2+h.rng.Intn(3), sizes, h.env)
 		default:
